@@ -20,6 +20,17 @@ type qpcModel struct {
 	closed   bool
 }
 
+type fullWorld struct {
+	c            *QueuePacketConn
+	outgoing     bool
+	free         int
+	producers    int
+	returned     int
+	returnedAt1s int
+	drained      []string
+	drainedOK    bool
+}
+
 const (
 	opQIa = iota
 	opQIb
@@ -194,6 +205,103 @@ func init() {
 			for _, t := range x.Threads() {
 				if t.Name == "main" && !t.Done {
 					x.Fail("never-blocks", "queue:operation-blocked", "blocked at %s", t.Site)
+				}
+			}
+		},
+	})
+
+	// several producers meet an almost full queue (nobody drains it): every call returns, the queue keeps
+	// its order and takes exactly as many packets as it had room for
+	harnesses = append(harnesses, &vs.Harness{
+		Name:     "c17b-full",
+		Horizon:  time.Hour,
+		MaxSteps: 400000,
+		Body: func(x *vs.X) {
+			outgoing := vs.Choose("direction", 2) == 1
+			free := vs.Choose("free", 3)
+			producers := 2 + vs.Choose("producers", cfgInt(x, "maxproducers", 2)-1)
+			withClose := vs.Choose("close", 2) == 1
+			c := NewQueuePacketConn(fakeAddr("local"), 10*time.Hour)
+			a := fakeAddr("a")
+			w := &fullWorld{c: c, outgoing: outgoing, free: free, producers: producers}
+			x.User = w
+			for i := 0; i < queueSize-free; i++ {
+				p := []byte(fmt.Sprintf("fill%d", i))
+				if outgoing {
+					c.WriteTo(p, a)
+				} else {
+					c.QueueIncoming(p, a)
+				}
+			}
+			for k := 0; k < producers; k++ {
+				k := k
+				vs.GoRole(fmt.Sprintf("producer%d", k), vs.RoleRequest, func() {
+					p := []byte(fmt.Sprintf("new%d", k))
+					if outgoing {
+						c.WriteTo(p, a)
+					} else {
+						c.QueueIncoming(p, a)
+					}
+					w.returned++
+				})
+			}
+			vs.Sleep(time.Second)
+			w.returnedAt1s = w.returned
+			if withClose {
+				c.Close()
+				return
+			}
+			// drain
+			if outgoing {
+				q := c.OutgoingQueue(a)
+				for {
+					p, ok, got := tryRecv(q)
+					if !got || !ok {
+						break
+					}
+					w.drained = append(w.drained, string(p))
+				}
+			} else {
+				out := make([]byte, 64)
+				for len(w.drained) < queueSize+producers {
+					if len(c.recvQueue) == 0 {
+						break
+					}
+					n, _, err := c.ReadFrom(out)
+					if err != nil {
+						break
+					}
+					w.drained = append(w.drained, string(out[:n]))
+				}
+			}
+			w.drainedOK = true
+			c.Close()
+		},
+		Check: func(x *vs.X) {
+			w := x.User.(*fullWorld)
+			x.Outcome(fmt.Sprintf("outgoing=%v free=%d producers=%d returned=%d drained=%d", w.outgoing, w.free, w.producers, w.returnedAt1s, len(w.drained)))
+			for _, t := range x.Threads() {
+				if t.Panic != "" {
+					x.Fail("no-panic", "panic:"+firstLine(t.Panic), "thread %s panicked: %s\n%s", t.Name, t.Panic, t.PanicAt)
+				}
+			}
+			if w.returnedAt1s != w.producers {
+				x.Fail("never-blocks", "queue:producer-blocked-on-full-queue", "%d of %d concurrent calls had not returned 1 s later (queue with %d free slots, nobody draining)", w.producers-w.returnedAt1s, w.producers, w.free)
+			}
+			if !w.drainedOK {
+				return
+			}
+			wantNew := w.free
+			if w.producers < wantNew {
+				wantNew = w.producers
+			}
+			if len(w.drained) != queueSize-w.free+wantNew {
+				x.Fail("queue-conn", "queue:full-queue-count", "the queue held %d packets, want %d (room for %d of the %d new ones)", len(w.drained), queueSize-w.free+wantNew, wantNew, w.producers)
+			}
+			for i := 0; i < queueSize-w.free && i < len(w.drained); i++ {
+				if w.drained[i] != fmt.Sprintf("fill%d", i) {
+					x.Fail("queue-conn", "queue:full-queue-order", "packet %d is %q", i, w.drained[i])
+					break
 				}
 			}
 		},
